@@ -32,6 +32,14 @@ def noisy_world(seed, n_chroms=3):
         last = max([g.end for g in w.genes if g.chrom == chrom] + [1000])
         if last + 16000 < w.chrom_len(chrom):
             world2.two_cluster_gene(w, "K%d" % (ci + 1), chrom, last + 3000, rng.choice("+-"), n_iso=1 + ci % 2)
+    # annotated genes hosting unannotated same-strand loci inside a long intron; gene ids in several styles (lower-case symbols sort
+    # after the generated 'novel_gene_...' ids, upper-case ones before)
+    for ci, chrom in enumerate(w.chrom_order):
+        last = max([g.end for g in w.genes if g.chrom == chrom] + [1000]) + 3000
+        for k, gid in enumerate(("slc25a%d" % (ci + 1), "ABCB%d" % (ci + 1), "zgc:%d" % (1100 + ci))[:2 + ci % 2]):
+            if last + 8000 < w.chrom_len(chrom):
+                _, end = world2.intronic_novel_loci(w, gid, chrom, last, "+-"[(k + ci) % 2])
+                last = end + 3000
     # noise: reads with shifted junctions beyond tolerance, extended ends (novel models reaching beyond their gene)
     for g in list(w.genes):
         for t in g.hidden[:1]:
@@ -108,7 +116,7 @@ def check_gtf(chk, gm, fname, fai, desc, wit):
 def run(chk, scratch):
     thorough = chk.tier == "thorough"
     chk.rule = ("CLI runs with and without annotation over model-construction strategies x data types on noisy multi-chromosome worlds (hidden isoforms, "
-                "reads extending beyond genes, shifted junctions, multi-mappers); every transcript/gene of both output GTFs judged against the structural rules, "
+                "reads extending beyond genes, shifted junctions, multi-mappers, unannotated loci inside long introns of genes with lower-case / upper-case ids); every transcript/gene of both output GTFs judged against the structural rules, "
                 "reference ids against the input GTF, extended annotation against reference + novel models. non-trivial = distinct (exon count, known/nic/nnic, "
                 "strand, file) tuples")
     jobs = []
